@@ -12,10 +12,10 @@ import (
 
 type intrinsicFn func(s *State, args []Value) Value
 
-var intrinsics map[string]intrinsicFn
+var intrinsics = map[string]intrinsicFn{}
 
 func init() {
-	intrinsics = map[string]intrinsicFn{
+	for k, v := range map[string]intrinsicFn{
 		"zzParam":        zzParam,
 		"zzPath":         zzParam,
 		"zzInt":          zzInt,
@@ -60,6 +60,8 @@ func init() {
 		"zzRepeat":       func(s *State, a []Value) Value { return int64(1) },
 		"zzIsolated":     zzIsolated,
 		"zzDeepEqual":    func(s *State, a []Value) Value { return s.deepEqual(a[0], a[1], 0) },
+	} {
+		intrinsics[k] = v
 	}
 }
 
